@@ -3,43 +3,43 @@ from common import LEAN_TB
 CFG = {'lean_modules': ['ObiVerif.Props.C13'],
  'gen': True,
  'thorough_seeds': 8,
- 'rule': 'cases = (workers 1..32, --distance 0..3, --ratio p/q in {1, 1/2, 1/10, 5/100, 1/4, 1/3, 2/3, 1/1000, 0, 2, 99/100; dyadic only for '
-         'distance > 1}, one sample of up to 40 (quick) / 60 (thorough) sequences over acgt (IUPAC codes in the distance > 1 cases)): stars (a hub and '
-         'many one-difference variants: substitution / insertion / deletion, ends and runs of equal symbols favoured), chains, stars of stars, '
-         'two-difference variants, duplicates, unrelated sequences, counts with many ties; contention stars of 40..200 sons of ONE father with 8..32 '
-         'workers; the corpus starts with the 120-sequence star on which the unrepaired code loses increments; `a` cases = up to 16 sequences spread '
-         'over three samples, annotations compared. Every case is executed with its own worker count (result compared with the model), with 1 worker '
-         '(independent oracle) and then with workers 1,2,3,4,6,8,12,16,24,32 x 2 runs (quick) / 1..32 x 12 runs (thorough), all results required '
-         'identical; thorough (first seed): three cases replayed through a `go build -race` build of the harness. non-trivial = distinct well-formed '
-         'case with at least two sequences',
- 'technique': 'Lean 4 theorems on a sequential model of the graph construction and on an interleaving model of the worker pool (threads of atomic or '
-              'split load/store micro-steps on shared counters, quantified over every row distribution and every interleaving) + differential '
-              'correspondence with the real obiclean functions driven through a verif hook + independent sequential oracle (Levenshtein matrix, integer '
-              'weights, exact ratio test) + equality across worker counts and repeated runs + Go race detector (thorough)',
+ 'rule': 'cases = (workers 1..32, --distance 0..3, --ratio p/q in {1, 1/2, 1/10, 5/100, 1/4, 1/3, 2/3, 1/1000, 0, 2, 99/100; dyadic only for distance > 1}, '
+         'one sample of up to 40 (quick) / 60 (thorough) sequences over acgt (IUPAC codes in the distance > 1 cases)): stars (a hub and many one-difference '
+         'variants: substitution / insertion / deletion, ends and runs of equal symbols favoured), chains, stars of stars, two-difference variants, '
+         'duplicates, unrelated sequences, counts with many ties; contention stars of 40..200 sons of ONE father with 8..32 workers; the corpus starts with '
+         'the 120-sequence star on which the unrepaired code loses increments; `a` cases = up to 16 sequences spread over three samples, annotations compared. '
+         'Every case is executed with its own worker count (result compared with the model), with 1 worker (independent oracle) and then with workers '
+         '1,2,3,4,6,8,12,16,24,32 x 2 runs (quick) / 1..32 x 12 runs (thorough), all results required identical; thorough (first seed): three cases replayed '
+         'through a `go build -race` build of the harness. non-trivial = distinct well-formed case with at least two sequences',
+ 'technique': 'Lean 4 theorems on a sequential model of the graph construction and on an interleaving model of the worker pool (threads of atomic or split '
+              'load/store micro-steps on shared counters, quantified over every row distribution and every interleaving) + differential correspondence with '
+              'the real obiclean functions driven through a verif hook + independent sequential oracle (Levenshtein matrix, integer weights, exact ratio test) '
+              '+ equality across worker counts and repeated runs + Go race detector (thorough)',
  'level_text': 'Proved for all inputs: atomic_any_schedule (any threads of atomic increments, every interleaving: each counter ends at the number of '
-               'increments); split_loses_update (two non-atomic x++ : an interleaving ends at 1) and graph_split_schedule_dependent (the same on the '
-               'graph model: a 3-sequence sample, 2 workers, result differs from the reference); edge_iff / edge_iff_sample (row i of the count-sorted '
-               'sample has an edge to j iff count j > count i and Levenshtein distance exactly 1, via d1or0_spec of C09, all sequences); sort_spec; '
-               'mutation_reproduces_edit (every edge: distance 1, position n >= 0 and symbols such that father = son edited at n); status_spec; '
-               'sons_exact; graph_schedule_independent (atomic increments: for every kernel pair, distance and ratio, sample, every number of workers, '
-               'every distribution/order of the rows over the workers and every complete interleaving, in both parallel phases, the result (edges, son '
-               'counts, weights, statuses) equals the sequential reference cleanSample) and graph_any_two_schedules_agree.',
- 'level_note': 'Trusted: Lean kernel; the transcriptions Model/Clean.lean, Model/Race.lean; that the repaired increment (under a sync.Mutex) is '
-               'indivisible (Go memory model) - cross-checked by the race detector in the thorough tier. The theorems are about the interleaving MODEL: '
-               'real goroutine schedules are exercised (workers 1..32 x repeats on 16 cores, all outputs equal), not enumerated. Floats are not modelled: '
-               'math.Round(w*c/swf) and w1/wf <= ratio^dist are exact rational arithmetic in the model, which agrees with float64 while w*c < 2^52 and '
-               'wf*q < 2^52 (and, for distance > 1, a dyadic ratio) - tied by the correspondence check and the integer oracle only. reweight: the model '
-               'runs the same fixed-point loop with fuel n+2 and reports `hang` if it were exhausted; that it never is (two turns suffice on a DAG ordered '
-               'by count) is observed on every case, not proved. edge_iff is stated on d1F / bandLCS (structural layers of C09); the verbatim index-loop '
-               'layers are executed side by side on every pair of every case (layer-mismatch otherwise). The exactness statement covers the default '
-               'distance 1; for --distance > 1 only determinism and the model/code agreement are claimed (the second-phase edges inherit C09 '
-               'fastLCS_sound). Stability of the sort (ties keep input order) is checked by the oracle, not proved.',
+               'increments); split_loses_update (two non-atomic x++ : an interleaving ends at 1) and graph_split_schedule_dependent (the same on the graph '
+               'model: a 3-sequence sample, 2 workers, result differs from the reference); edge_iff / edge_iff_sample (row i of the count-sorted sample has an '
+               'edge to j iff count j > count i and Levenshtein distance exactly 1, via d1or0_spec of C09, all sequences); sort_spec; mutation_reproduces_edit '
+               '(every edge: distance 1, position n >= 0 and symbols such that father = son edited at n); status_spec; sons_exact; graph_schedule_independent '
+               '(atomic increments: for every kernel pair, distance and ratio, sample, every number of workers, every distribution/order of the rows over the '
+               'workers and every complete interleaving, in both parallel phases, the result (edges, son counts, weights, statuses) equals the sequential '
+               'reference cleanSample) and graph_any_two_schedules_agree. Deepening round: reweight_terminates (cleanSample never yields the hang outcome: the '
+               'fuel n+2 always suffices), reweight_two_turns, reweight_graph_forward, reweight_hang_reachable (with a backward edge and a lost increment the '
+               'fuel does run out: the outcome is not dead code), sort_stable (the count sort keeps the input order among ties).',
+ 'level_note': 'Trusted: Lean kernel; the transcriptions Model/Clean.lean, Model/Race.lean; that the repaired increment (under a sync.Mutex) is indivisible '
+               '(Go memory model) - cross-checked by the race detector in the thorough tier. The theorems are about the interleaving MODEL: real goroutine '
+               'schedules are exercised (workers 1..32 x repeats on 16 cores, all outputs equal), not enumerated. Floats are not modelled: math.Round(w*c/swf) '
+               'and w1/wf <= ratio^dist are exact rational arithmetic in the model, which agrees with float64 while w*c < 2^52 and wf*q < 2^52 (and, for '
+               'distance > 1, a dyadic ratio) - tied by the correspondence check and the integer oracle only. reweight: the model runs the same fixed-point '
+               'loop with fuel n+2 and reports `hang` if it were exhausted; that it never is is now a theorem (reweight_terminates). edge_iff is stated on d1F '
+               '/ bandLCS (structural layers of C09); the verbatim index-loop layers are executed side by side on every pair of every case (layer-mismatch '
+               'otherwise). The exactness statement covers the default distance 1; for --distance > 1 only determinism and the model/code agreement are '
+               'claimed (the second-phase edges inherit C09 fastLCS_sound). Stability of the sort is proved (sort_stable).',
  'trusted_base': LEAN_TB + ['sync.Mutex makes the increment indivisible (Go memory model); Go race detector as cross-check',
-                            'float64 arithmetic of reweightSequences / FilterGraphOnRatio agrees with exact rationals in the tested range',
-                            'C09: d1or0_spec (proved) and the tie of d1F / bandLCS to D1Or0 / FastLCSScore'],
- 'modelled': 'pkg/obitools/obiclean graph.go (sortSamples, buildSamplePairs, reweightSequences, extendSimilarityGraph, FilterGraphOnRatio, '
-             'ObicleanStatus, makeEdge), obiclean.go (buildSamples via the hook, Mutation, status/weight annotations, annotateOBIClean counts and '
-             'head flag); kernels from pkg/obialign (D1Or0, FastLCSScore) through Model/Lcs.lean',
+ 'float64 arithmetic of reweightSequences / FilterGraphOnRatio agrees with exact rationals in the tested range',
+ 'C09: d1or0_spec (proved) and the tie of d1F / bandLCS to D1Or0 / FastLCSScore'],
+ 'modelled': 'pkg/obitools/obiclean graph.go (sortSamples, buildSamplePairs, reweightSequences, extendSimilarityGraph, FilterGraphOnRatio, ObicleanStatus, '
+             'makeEdge), obiclean.go (buildSamples via the hook, Mutation, status/weight annotations, annotateOBIClean counts and head flag); kernels from '
+             'pkg/obialign (D1Or0, FastLCSScore) through Model/Lcs.lean',
  'assumptions': ['counts >= 1 and < 2^30; sequences are lower-case ASCII letters (SetSequence lower-cases A-Z)',
                  'workers >= 1 (with 0 workers the feeding goroutine blocks forever and no edge is built)',
                  'the progress bars / GML / ratio-table outputs of CLIOBIClean are not observed']}
